@@ -79,24 +79,41 @@ type flagSet struct{ d, t, r, s bool }
 
 // predict runs the library the way the tool is documented to and gives the
 // expected streams and status.
-func predict(src, name string, fl flagSet) cliResult {
+func predict(src, name string, fl flagSet) (res cliResult, parseFailed bool) {
 	var out, errb bytes.Buffer
 	p, err := bcl.ParseFile(&scriptFile{data: []byte(src), name: name}, bcl.OptOutput(&out), bcl.OptLogger(&errb),
 		bcl.OptDisasm(fl.d), bcl.OptStats(fl.s))
 	if err != nil {
-		fmt.Fprintln(&errb, err)
-		return cliResult{out.String(), errb.String(), 1}
+		return cliResult{out.String(), errb.String(), 1}, true
 	}
-	res, binding, err := bcl.Execute(p, bcl.OptOutput(&out), bcl.OptLogger(&errb), bcl.OptTrace(fl.t), bcl.OptStats(fl.s))
+	_, _, err = bcl.Execute(p, bcl.OptOutput(&out), bcl.OptLogger(&errb), bcl.OptTrace(fl.t), bcl.OptStats(fl.s))
 	if err != nil {
-		fmt.Fprintln(&errb, err)
-		return cliResult{out.String(), errb.String(), 1}
+		return cliResult{out.String(), errb.String(), 1}, false
 	}
-	if fl.r {
-		fmt.Fprintf(&out, "result:  %+v\n", res)
-		fmt.Fprintf(&out, "binding: %+v\n", binding)
+	return cliResult{out.String(), errb.String(), 0}, false
+}
+
+// mirrors tells whether the tool's run is what the library's run predicts:
+// the same status; standard output is what the library wrote, followed (only
+// with -r on a successful run) by the tool's own listing of the results,
+// whose format no property fixes; standard error is what the library logged,
+// followed (only on failure) by the tool's own line reporting the error.
+func mirrors(got, want cliResult, fl flagSet) bool {
+	if got.Status != want.Status {
+		return false
 	}
-	return cliResult{out.String(), errb.String(), 0}
+	switch {
+	case fl.r && want.Status == 0:
+		if !strings.HasPrefix(got.Stdout, want.Stdout) || len(got.Stdout) == len(want.Stdout) {
+			return false
+		}
+	case got.Stdout != want.Stdout:
+		return false
+	}
+	if want.Status != 0 {
+		return strings.HasPrefix(got.Stderr, want.Stderr) && strings.TrimSpace(got.Stderr[len(want.Stderr):]) != ""
+	}
+	return got.Stderr == want.Stderr
 }
 
 type caseC18 struct {
@@ -253,9 +270,9 @@ func TestC18(t *testing.T) {
 			switch {
 			case r.Status != wantStatus:
 				rec.Fail(t, c, "bcl %v: exit status %d, expected %d (stderr %q)", argv, r.Status, wantStatus, r.Stderr)
-			case wantUsage && (r.Stdout != "" || !strings.Contains(r.Stderr, "usage:")):
+			case wantUsage && (r.Stdout != "" || strings.TrimSpace(r.Stderr) == ""):
 				rec.Fail(t, c, "bcl %v: usage error must leave stdout empty and explain the usage on stderr; stdout %q stderr %q", argv, r.Stdout, r.Stderr)
-			case kind == "help" && (!strings.Contains(r.Stdout, "usage:") || r.Stderr != ""):
+			case kind == "help" && (strings.TrimSpace(r.Stdout) == "" || r.Stderr != ""):
 				rec.Fail(t, c, "bcl -h: stdout %q stderr %q", r.Stdout, r.Stderr)
 			case wantStatus == 1 && (r.Stderr == "" || r.Stdout != ""):
 				rec.Fail(t, c, "bcl %v: an I/O error must be reported on stderr only; stdout %q stderr %q", argv, r.Stdout, r.Stderr)
@@ -363,13 +380,13 @@ func TestC18(t *testing.T) {
 		feats = append(feats, "program:"+class, "input:"+mode)
 
 		// (1) mirror
-		want := predict(src, name, fl)
+		want, parseFailed := predict(src, name, fl)
 		argv1 := placeFile(t, spellFlags(t, fl), fileArg)
 		got := runCLI(dir, stdin, argv1...)
 		c := caseC18{Src: src, Argvs: [][]string{argv1}, Mode: mode, Note: "mirror"}
-		if got != want {
+		if !mirrors(got, want, fl) {
 			rec.Case(true, harness.Hash(src, strings.Join(argv1, " ")), feats...)
-			rec.Fail(t, c, "bcl %v differs from the library called the documented way:\n--- tool: status %d\nstdout %q\nstderr %q\n--- library: status %d\nstdout %q\nstderr %q\nsource:\n%s",
+			rec.Fail(t, c, "bcl %v differs from the library called the documented way (the tool's own result listing after the library's output and its own error line after the library's diagnostics are not compared):\n--- tool: status %d\nstdout %q\nstderr %q\n--- library: status %d\nstdout %q\nstderr %q\nsource:\n%s",
 				argv1, got.Status, clip(got.Stdout, 600), clip(got.Stderr, 400), want.Status, clip(want.Stdout, 600), clip(want.Stderr, 400), clip(src, 500))
 		}
 		// (2) metamorphic: other spellings of the same flag set
@@ -414,7 +431,7 @@ func TestC18(t *testing.T) {
 				rec.Fail(t, c, "with %s the tool behaves differently: status %d vs %d, stdout %q vs %q, stderr %q vs %q", dumpArg, gd.Status, got.Status,
 					clip(gd.Stdout, 400), clip(got.Stdout, 400), clip(gd.Stderr, 300), clip(got.Stderr, 300))
 			}
-			parsedOK := class != "parse-error" && !(class == "mutant" && want.Status == 1 && !strings.Contains(want.Stderr, "runtime error"))
+			parsedOK := !parseFailed
 			b, rerr := os.ReadFile(filepath.Join(dir, bf))
 			if parsedOK {
 				if rerr != nil || len(b) < 4 || b[0] != 0xFC || b[1] != 0x6C || b[2] != 1 || b[3] != 1 {
